@@ -587,7 +587,7 @@ func floatToIntConverts(fn *ssa.Function) []*ssa.Convert {
 // of package xy that dpWorker (or a function literal in it) calls with at least three coordinate arguments and that
 // returns one float64. A rename keeps the role; the historical name is the fall-back.
 func rdpDistanceFn(p *core.Program) *ssa.Function {
-	dw := p.SSAFunc("xy", "dpWorker")
+	dw := rdpWorkerFn(p)
 	if dw != nil {
 		var cands []*ssa.Function
 		var scan func(f *ssa.Function)
@@ -658,7 +658,7 @@ func mustEdgesTo(fn *ssa.Function, b *ssa.BasicBlock) [][2]int {
 			continue
 		}
 		for i := range d.Succs {
-			if !eng.Reachable(fn.Blocks[0], eng.EdgeSet{[2]int{d.Index, i}: true})[b] {
+			if !eng.ReachablePhi(fn.Blocks[0], eng.EdgeSet{[2]int{d.Index, i}: true})[b] {
 				out = append(out, [2]int{d.Index, i})
 			}
 		}
@@ -709,4 +709,65 @@ func deadAppends(fn *ssa.Function) []*ssa.Call {
 		}
 	}
 	return out
+}
+
+// rdpWorkerFn: the worker of the Douglas-Peucker simplifier, by role - the function or method of package xy that
+// SimplifyFlatCoords calls and that marks points by storing into a byte slice (named dpWorker on the pinned tree).
+func rdpWorkerFn(p *core.Program) *ssa.Function {
+	if dw := p.SSAFunc("xy", "dpWorker"); dw != nil {
+		return dw
+	}
+	entry := p.SSAFunc("xy", "SimplifyFlatCoords")
+	if entry == nil {
+		return nil
+	}
+	storesBytes := func(f *ssa.Function) bool {
+		for _, b := range f.Blocks {
+			for _, in := range b.Instrs {
+				if st, ok := in.(*ssa.Store); ok {
+					if ia, ok := st.Addr.(*ssa.IndexAddr); ok {
+						if sl, ok := ia.X.Type().Underlying().(*types.Slice); ok {
+							if bt, ok := sl.Elem().Underlying().(*types.Basic); ok && bt.Kind() == types.Uint8 {
+								return true
+							}
+						}
+					}
+				}
+			}
+		}
+		return false
+	}
+	for _, c := range eng.Calls(entry) {
+		g := eng.StaticCallee(c)
+		if g != nil && g != entry && core.FnPkgPath(g) == mod+"/xy" && len(g.Blocks) > 0 && storesBytes(g) {
+			return g
+		}
+	}
+	return nil
+}
+
+// mustRdpWorker reports an anchor loss when the worker cannot be found.
+func mustRdpWorker(p *core.Program, r *core.Report, rule string) *ssa.Function {
+	dw := rdpWorkerFn(p)
+	if dw == nil {
+		r.Lost(rule, "xy/rdp-worker", "SimplifyFlatCoords calls no function of the package that marks points in a byte mask")
+	}
+	return dw
+}
+
+// rdpWorkerName: the worker's name in the form core.LookupFunc takes.
+func rdpWorkerName(p *core.Program) string {
+	f := rdpWorkerFn(p)
+	if f == nil {
+		return "dpWorker"
+	}
+	rv := f.Signature.Recv()
+	if rv == nil {
+		return f.Name()
+	}
+	t := rv.Type()
+	if pt, ok := t.(*types.Pointer); ok {
+		return "(*" + namedTypeName(pt.Elem()) + ")." + f.Name()
+	}
+	return "(" + namedTypeName(t) + ")." + f.Name()
 }
